@@ -51,11 +51,11 @@ def main():
         # static, so ask for them first through the attribute when present
         mods = getattr(hs[pid], 'modules', None)
         if not args.no_proof and mods:
-            proof = common.prove(mods)
+            proof = common.prove(mods, args.tier)
         res = hs[pid](report, rng, args.tier, findings)
         mods2, assumptions = res
         if proof is None and not args.no_proof:
-            proof = common.prove(mods2)
+            proof = common.prove(mods2, args.tier)
         return report.finish(proof, assumptions)
     except common.HarnessError as e:
         print(f'HARNESS-ERROR {pid}: {e}', file=sys.stderr)
